@@ -150,7 +150,7 @@ TRUSTED_BASE = ['contracts of read_to_buffer/peek_type/read_cbor_type/read_int/r
 ASSUMPTIONS = ['input length < 2^60', 'definite containers with < 2^32 members']
 
 # ---------------------------------------------------------------- read_string, chunked (indefinite-length) branch
-STUBS_RS = STUBS_C.replace("  if (!g_arg0_set) { g_arg0 = v; g_arg0_set = 1; }\n  return v;", "  if (!g_arg0_set) { g_arg0 = v; g_arg0_set = 1; }\n  __CPROVER_assume(v < (1UL << 61) && g_argsum < (1UL << 61));   /* total string length < 2^62 */\n  g_argsum += v;\n  return v;") \
+STUBS_RS = STUBS_C.replace("  if (!g_arg0_set) { g_arg0 = v; g_arg0_set = 1; }\n  return v;", "  if (!g_arg0_set) { g_arg0 = v; g_arg0_set = 1; }\n  __CPROVER_assume(v < (1UL << 32) && g_argsum < (1UL << 61));   /* chunks < 2^32 bytes (the copy loop counts in 32 bits), total string length < 2^62 */\n  g_argsum += v;\n  return v;") \
                   .replace("  if (g_nheads == 0) g_h0 = g_cell[0];", "  if (g_nheads == 0) g_h0 = g_cell[0];\n  g_hlast = g_cell[0];")
 RSI_C = '''
 __CPROVER_requires(__CPROVER_w_ok($this, sizeof(*$this)) && g_exc == 0 && D2_INV($this) && $3)
@@ -158,6 +158,7 @@ __CPROVER_requires(($1 == 0x40 || $1 == 0x60) && g_argsum == 0 && g_nheads == 0 
 __CPROVER_assigns($this->m_p, $this->m_end, G2, g_argsum, g_hlast, g_exc, __CPROVER_object_whole(g_cell))
 __CPROVER_ensures(g_exc == 0 || g_exc == EXC_CdnsDecoderException || g_exc == EXC_CdnsDecoderEnd)
 __CPROVER_ensures(g_exc == 0 ==> (D2_INV($this) && g_break_consumed))
+__CPROVER_ensures(g_exc == 0 ==> $ret.len == g_argsum)
 __CPROVER_ensures((g_exc == EXC_CdnsDecoderException && !g_callee_threw) ==> (g_hlast != 0xFF && (MT(g_hlast) != $1 || AIV(g_hlast) == 31)))
 '''
 # locals: $L1 ret, $L2 i (definite loop), $L3 chunk_type, $L4 chunk_length_value, $L5 chunk_length, $L6 i
@@ -172,7 +173,7 @@ RSI_L2 = '''
   __CPROVER_loop_invariant(D2_LOADED($this) || ($this->m_p == g_cell + 1 && $this->m_end == g_cell + 1) || ($this->m_p == g_cell && $this->m_end == g_cell))
   __CPROVER_loop_invariant(!D2_LOADED($this) || g_avail >= 1)
   __CPROVER_loop_invariant(!g_break_consumed && !g_callee_threw && !g_peek_break)
-  __CPROVER_loop_invariant($L1.len <= (1UL << 62))
+  __CPROVER_loop_invariant($L1.len <= (1UL << 62) && $L1.len == g_argsum)
 '''
 RSI_L3 = '''
   __CPROVER_assigns($L1, $L6, $this->m_p, $this->m_end, G2, g_hlast, g_exc, __CPROVER_object_whole(g_cell))
@@ -181,7 +182,7 @@ RSI_L3 = '''
   __CPROVER_loop_invariant(D2_LOADED($this) || ($this->m_p == g_cell + 1 && $this->m_end == g_cell + 1) || ($this->m_p == g_cell && $this->m_end == g_cell))
   __CPROVER_loop_invariant(!D2_LOADED($this) || g_avail >= 1)
   __CPROVER_loop_invariant(!g_break_consumed && !g_callee_threw && !g_peek_break)
-  __CPROVER_loop_invariant($L1.len <= (1UL << 62))
+  __CPROVER_loop_invariant($L1.len <= (1UL << 62) && (unsigned long)$L6 <= $L5 && $L1.len + ($L5 - (unsigned long)$L6) == g_argsum)
 '''
 UNITS.append(Unit('dec2.read_string.chunked', ('CdnsDecoder::read_string', None), contract=RSI_C, loops={'1': RSI_L1, '2': RSI_L2, '2.1': RSI_L3}, prelude=P, opaque=OPQ,
                   extra_c=STUBS_RS, arrays_uf=False,
